@@ -7,6 +7,7 @@ from tucan.io.molfile_v3000_reader import _concat_lines_with_dash
 
 import os
 BOUND = int(os.environ.get("VERIF_WRAP_BOUND", "150"))
+SPLIT_BOUND = int(os.environ.get("VERIF_SPLIT_BOUND", "80"))
 
 
 def splice_after_wrap(line: str) -> bool:
@@ -38,8 +39,18 @@ def splice_after_wrap_twin(line: str) -> bool:
 
 def splice_any_split(left: str, right: str) -> bool:
     """A continuation at any split point: 'M  V30 <left>-' + 'M  V30 <right>' reads as left+right.
-    pre: len(left) + len(right) <= 80
+    pre: len(left) + len(right) <= SPLIT_BOUND
     pre: not (left + right).endswith("-")
     post: _
     """
     return _concat_lines_with_dash(["M  V30 " + left + "-", "M  V30 " + right, "M  END"]) == ["M  V30 " + left + right, "M  END"]
+
+
+def splice_at(line: str, k: int) -> bool:
+    """The same with one string and a split position.
+    pre: len(line) <= SPLIT_BOUND
+    pre: 0 <= k <= len(line)
+    pre: not line.endswith("-")
+    post: _
+    """
+    return _concat_lines_with_dash(["M  V30 " + line[:k] + "-", "M  V30 " + line[k:], "M  END"]) == ["M  V30 " + line, "M  END"]
